@@ -41,6 +41,7 @@ func init() {
 	contextFunctions[symbols.NT_PathExprFilterWithAbbreviatedPath] = execAbbreviatedRelativeLocationPath
 	contextFunctions[symbols.NT_AxisName] = execAxisName
 	contextFunctions[symbols.NT_AbbreviatedStepParent] = execAbbreviatedStepParent
+	contextFunctions[symbols.NT_AbbreviatedStepSelf] = execAbbreviatedStepSelf
 	contextFunctions[symbols.NT_AbbreviatedAxisSpecifier] = execAbbreviatedAxisSpecifier
 	contextFunctions[symbols.NT_AbbreviatedAbsoluteLocationPath] = execAbbreviatedAbsoluteLocationPath
 	contextFunctions[symbols.NT_AbbreviatedRelativeLocationPath] = execAbbreviatedRelativeLocationPath
@@ -544,6 +545,14 @@ func execAbbreviatedStepParent(context *exprContext, expr *grammar.Grammar) erro
 	}
 
 	context.result = selectParent(nodeSet)
+	return nil
+}
+
+func execAbbreviatedStepSelf(context *exprContext, expr *grammar.Grammar) error {
+	if _, ok := context.result.(NodeSet); !ok {
+		return errQueryNonNodeset
+	}
+
 	return nil
 }
 
